@@ -154,7 +154,7 @@ static void reader_step(const item_t *it) {
 		sim_probe("c19.rpos_init");
 		if (item_get(it, "reinit", 0)) return;
 	}
-	if (!g_committed) return; /* the available-size query is only specified once something was written */
+	if (!g_committed) sim_probe("c19.reader_step_on_a_never_written_ring");   /* nothing written yet: the query must say 0 and a read must return nothing */
 	if (item_get(it, "probe", 0)) {
 		/* the read-only validity probe: whatever it answers, the cursor is the caller's */
 		r_buf_rpos_t before = r->rpos;
